@@ -19,6 +19,7 @@ import itertools
 import json
 import os
 import shutil
+import signal
 import sys
 import tempfile
 import time
@@ -81,15 +82,42 @@ def _model_dict(m) -> dict:
     return out
 
 
+class Hang(BaseException):
+    """not an Exception: must not be swallowed by the `except Exception` that classifies real-code errors"""
+
+
+class watchdog:
+    """SIGALRM guard around calls into the real code (a mutant may loop forever)"""
+
+    def __init__(self, seconds=15.0):
+        self.seconds = seconds
+
+    def _fire(self, *_):
+        raise Hang()
+
+    def __enter__(self):
+        self.old = signal.signal(signal.SIGALRM, self._fire)
+        signal.setitimer(signal.ITIMER_REAL, self.seconds)
+
+    def __exit__(self, *exc):
+        signal.setitimer(signal.ITIMER_REAL, 0)
+        signal.signal(signal.SIGALRM, self.old)
+        return False
+
+
 def check_history(S, init, ops, do_twin, cap_s):
     """-> list of per-vector records {var, status, ...}; status in ok|inconc|cand"""
     dom = M.SymDom()
     recs = []
     try:
-        env, refs, st = M.run_history(dom, init, ops)
+        with watchdog():
+            env, refs, st = M.run_history(dom, init, ops)
     except M.OpError as e:
         return [{"var": "A", "status": "cand", "kind": "exception", "label": M.op_sig(e.op),
                  "detail": f"{type(e.exc).__name__}: {e.exc}"[:200], "exc": type(e.exc).__name__}], M.new_stats(), 0.0
+    except Hang:
+        return [{"var": "A", "status": "cand", "kind": "hang", "label": "write", "exc": "Hang",
+                 "detail": "an operation did not return within 15 s"}], M.new_stats(), 0.0
     tsolve = 0.0
     for name in ("A", "B"):
         V = env[name]
@@ -98,7 +126,12 @@ def check_history(S, init, ops, do_twin, cap_s):
         rec = {"var": name, "status": "ok", "nontrivial": False}
         recs.append(rec)
         try:
-            pairs, bad = M.observe(V, refs[name], dom.zero, name, extra_pass=do_twin)
+            with watchdog():
+                pairs, bad = M.observe(V, refs[name], dom.zero, name, extra_pass=do_twin)
+        except Hang:
+            rec.update(status="cand", kind="hang", label=f"{name}.read", exc="Hang",
+                       detail="a read did not return within 15 s")
+            continue
         except M.ReadError as e:
             rec.update(status="cand", kind="read_exception", label=e.label,
                        detail=f"{type(e.exc).__name__}: {e.exc}"[:200], exc=type(e.exc).__name__)
@@ -139,6 +172,13 @@ def check_history(S, init, ops, do_twin, cap_s):
 
 def _unit(u):
     """one work unit: all histories of a block that start with a given first operation"""
+    if u[0] == "sevm":
+        try:
+            return {"sevm": _sevm_one(u[1])}
+        except Exception:  # noqa: BLE001
+            import traceback
+
+            return {"sevm": ("error", traceback.format_exc())}
     uid, init, level, length, first, cap_s, deadline = u
     al = alph(level)
     S = z3.Solver()
@@ -146,7 +186,7 @@ def _unit(u):
     out = {"uid": uid, "init": init, "level": level, "length": length, "first": first, "hist": 0, "skipped": 0,
            "classes": {}, "sigs": {}, "cands": [], "ncand": 0, "inconc": [], "stats": M.new_stats(),
            "hist_with": {k: 0 for k in M.new_stats()}, "twin_ok": 0, "twin_bad": [], "solver_s": 0.0, "ext": {},
-           "sample": None, "wall": 0.0}
+           "sample": None, "wall": 0.0, "herr": []}
     t0 = time.time()
     n = 0
     firsts = first if isinstance(first, tuple) else (first,)
@@ -158,7 +198,12 @@ def _unit(u):
             continue
         n += 1
         do_twin = n % 23 == 1
-        recs, st, ts = check_history(S, init, ops, do_twin, cap_s)
+        try:
+            recs, st, ts = check_history(S, init, ops, do_twin, cap_s)
+        except Exception as e:  # noqa: BLE001 - harness problem on this history: reported, never a verdict
+            if len(out["herr"]) < 3:
+                out["herr"].append(f"{init} {ops}: {type(e).__name__}: {str(e)[:150]}")
+            continue
         out["hist"] += 1
         out["solver_s"] += ts
         for k, v in st.items():
@@ -215,15 +260,15 @@ def _eval(term, model: dict):
 
 def _byref(env, var) -> bool:
     """diagnosis only (names the key): does `var` hold the *other* vector object itself as a chunk?"""
-    other = env["B" if var == "A" else "A"]
     V = env[var]
-    if other is None or V is None:
+    live = [x for x in env.values() if x is not None]
+    if len(live) < 2 or V is None:
         return False
     try:
         stack, seen = list(V.chunks.values()), set()
         while stack:
             ch = stack.pop()
-            if ch is other:
+            if any(ch is x for x in live):
                 return True
             if isinstance(ch, ByteVec) and id(ch) not in seen:  # by-reference storage can even create cycles
                 seen.add(id(ch))
@@ -244,6 +289,19 @@ def replay(cand: dict) -> dict:
     init, ops, var = cand["init"], [tuple(o) for o in cand["ops"]], cand["var"]
     kind = cand["kind"]
     out = {"reproduced": False, "kind": kind}
+    if kind == "hang":
+        try:
+            with watchdog():
+                env, refs, _ = M.run_history(M.SymDom(), init, ops)
+                for nm in ("A", "B"):
+                    if env[nm] is not None:
+                        M.observe(env[nm], refs[nm], M.Z8[0], nm)
+            out["outcome"] = "returned on re-run"
+        except Hang:
+            out.update(reproduced=True, outcome="did not return within 15 s on re-run")
+        except Exception as e:  # noqa: BLE001
+            out["outcome"] = f"re-run raised {type(e).__name__}"
+        return out
     if kind == "exception":
         try:
             M.run_history(M.SymDom(), init, ops)
@@ -314,7 +372,7 @@ def violation_key(cand, rp) -> str:
                 + f"/{cls}")
     last = M.op_sig(tuple(cand["ops"][-1])) if cand["ops"] else "init"
     read = cand.get("label", "").split(".", 1)[-1].split("(")[0].split("#")[0]
-    if cand["kind"] in ("exception", "read_exception"):
+    if cand["kind"] in ("exception", "read_exception", "hang"):
         return f"{cls}/exception:{cand.get('exc')}/{last if cand['kind'] == 'exception' else read}"
     return f"{cls}/{last}/{read}"
 
@@ -451,12 +509,15 @@ def main(run: common.Run):
 def _main(run, tier, blocks, jobs, cap_s, tmpdir, want_z, want_p, want_s):
     import multiprocessing as mp
 
+    global _SEVM_PROGS
+
     t_start = time.time()
     # ---- route P in the background (CPU-time capped subprocesses) ---------------------------------------
     prun = None
     p_cap = 75 if tier == "quick" else 300
     if want_p:
-        prun = chx07.Runner(tier, tmpdir, common.REPO_SRC, p_cap, jobs=max(2, jobs // 2) if want_z else jobs)
+        prun = chx07.Runner(tier, tmpdir, common.REPO_SRC, p_cap, jobs=max(2, jobs // 2) if want_z else jobs,
+                            deadline=t_start + (190 if tier == "quick" else 24 * 60))
         if not prun.available():
             rc = os.system(f"cd {common.VERIF} && ./setup.sh >/dev/null 2>&1")
             if not prun.available():
@@ -470,6 +531,7 @@ def _main(run, tier, blocks, jobs, cap_s, tmpdir, want_z, want_p, want_s):
     totals = {"histories": 0, "skipped": 0, "twin_ok": 0, "cands": 0}
     cands: list = []
     block_rows = []
+    sevm_res: list = []
     if want_z:
         deadline = t_start + Z_BUDGET_S[tier]
         units, uid = [], 0
@@ -482,13 +544,25 @@ def _main(run, tier, blocks, jobs, cap_s, tmpdir, want_z, want_p, want_s):
                     first = tuple(ok1[g:g + group]) if group > 1 else ok1[g]
                     units.append((uid, init, level, length, first, cap_s, deadline))
                     uid += 1
-        # longest histories first (better packing)
-        units.sort(key=lambda u: (-u[3], u[0]))
+        # short histories first: under time pressure the minimal counterexamples are found first
+        units.sort(key=lambda u: (u[3], u[0]))
+        # ... and round-robin over the blocks, so that a time budget cut degrades all blocks evenly
+        by_block: dict = {}
+        for u in units:
+            by_block.setdefault((u[2], u[3]), []).append(u)
+        units = [u for grp in itertools.zip_longest(*by_block.values()) for u in grp if u is not None]
+        if want_s:
+            _SEVM_PROGS = sevm_programs(tier)
+            units = [("sevm", i) for i in range(len(_SEVM_PROGS))] + units
         per_block: dict = {}
+        sample_per: dict = {}
         ctx = mp.get_context("fork")
         zjobs = max(2, jobs - (3 if prun else 0))
         with ctx.Pool(processes=zjobs) as pool:
             for r in pool.imap_unordered(_unit, units, chunksize=1):
+                if "sevm" in r:
+                    sevm_res.append(r["sevm"])
+                    continue
                 b = per_block.setdefault((r["level"], r["length"]), {"histories": 0, "skipped": 0, "wall": 0.0})
                 b["histories"] += r["hist"]
                 b["skipped"] += r["skipped"]
@@ -513,17 +587,23 @@ def _main(run, tier, blocks, jobs, cap_s, tmpdir, want_z, want_p, want_s):
                 run.distinct.update(r["sigs"].keys())
                 for cls, key, why in r["inconc"]:
                     run.inconc(cls, key, why)
+                for he in r["herr"]:
+                    run.harness_error("harness exception in a worker: " + he)
                 for tb in r["twin_bad"]:
                     run.harness_error(f"sensitivity twin not sat (comparison may be vacuous): {tb}")
-                if r["sample"]:
-                    run.sample(r["sample"], limit=8)
+                if r["sample"] and sample_per.get((r["level"], r["length"]), 0) < 2:
+                    sample_per[(r["level"], r["length"])] = sample_per.get((r["level"], r["length"]), 0) + 1
+                    run.sample(r["sample"], limit=12)
                 if r["skipped"]:
-                    run.inconc("Z.budget", f"{r['init']}:{r['level']}^{r['length']}:first={r['first']}",
+                    fst = r["first"] if not isinstance(r["first"], tuple) else f"{r['first'][0]}..{r['first'][-1]}"
+                    run.inconc("Z.budget", f"{r['init']}:{r['level']}^{r['length']}:first={fst}",
                                f"{r['skipped']} histories not run (time budget)")
                 cands.extend(r["cands"])
         for (level, length), b in sorted(per_block.items()):
             block_rows.append({"alphabet": level, "alphabet_size": len(alph(level)), "length": length, **b,
                                "wall": round(b["wall"], 1)})
+        if prun:
+            prun.more_slots(zjobs)
         print(f"  route Z: {totals['histories']} histories in {time.time() - t_start:.0f}s "
               f"({totals['skipped']} skipped, {totals['cands']} candidates)", flush=True)
 
@@ -542,7 +622,18 @@ def _main(run, tier, blocks, jobs, cap_s, tmpdir, want_z, want_p, want_s):
             pre_seen[pre] = pre_seen.get(pre, 0) + 1
             replays += 1
             try:
-                rp = replay(c)
+                if c["kind"] == "hang":
+                    rp = replay(c)  # has its own watchdog
+                else:
+                    with watchdog(40):
+                        rp = replay(c)
+            except Hang:
+                if c["kind"] == "hang":
+                    rp = {"reproduced": True, "kind": "hang", "outcome": "did not return on re-run"}
+                else:
+                    run.inconc(c["cls"], f"{M.hist_sig(c['init'], [tuple(o) for o in c['ops']])}",
+                               "replay of the candidate did not return within 40 s")
+                    continue
             except Exception as e:  # noqa: BLE001
                 run.harness_error(f"replay crashed on {c['init']} {c['ops']}: {type(e).__name__}: {e}")
                 continue
@@ -569,11 +660,11 @@ def _main(run, tier, blocks, jobs, cap_s, tmpdir, want_z, want_p, want_s):
 
     # ---- SEVM memory instructions --------------------------------------------------------------------------
     if want_s:
-        global _SEVM_PROGS
-        _SEVM_PROGS = sevm_programs(tier)
-        res = common.parallel_map(_sevm_one, list(range(len(_SEVM_PROGS))), max(2, jobs // 2))
+        if not want_z:
+            _SEVM_PROGS = sevm_programs(tier)
+            sevm_res = common.parallel_map(_sevm_one, list(range(len(_SEVM_PROGS))), max(2, jobs // 2))
         nsev = 0
-        for r in res:
+        for r in sevm_res:
             if r and r[0] == "error":
                 run.harness_error("sevm program crashed: " + r[1].strip().splitlines()[-1][:200])
                 continue
@@ -593,14 +684,17 @@ def _main(run, tier, blocks, jobs, cap_s, tmpdir, want_z, want_p, want_s):
     # ---- route P results ---------------------------------------------------------------------------------
     p_rows = []
     if prun:
-        tw_ok = 0
+        tw_ok = tw_run = 0
         for c, r in prun.results():
             row = {"name": c["name"], "status": r["status"], "wall": round(r["wall"], 1),
                    "ranges": {n: [lo, hi] for n, lo, hi in c["ints"]}}
             p_rows.append(row)
             if c["post"] == "False":  # reachability twin
+                tw_run += 0 if "not run" in r["msg"] else 1
                 if r["status"] == "counterexample":
                     tw_ok += 1
+                elif "not run" in r["msg"]:
+                    run.inconc("P.twin", c["name"], r["msg"])
                 else:
                     run.harness_error(f"route P twin {c['name']} was not refuted ({r['status']}: {r['msg'][:120]})")
                 continue
@@ -624,7 +718,7 @@ def _main(run, tier, blocks, jobs, cap_s, tmpdir, want_z, want_p, want_s):
             else:
                 run.inconc(c["cls"], c["name"], f"CrossHair: {r['msg'][:160]}")
         run.extra["route_p"] = {"conditions": p_rows, "twins_refuted": tw_ok, "cap_cpu_s": p_cap}
-        if tw_ok == 0:
+        if tw_ok == 0 and tw_run > 0:
             run.harness_error("vacuity: no route P reachability twin was refuted")
 
     # ---- vacuity + evidence ------------------------------------------------------------------------------
